@@ -1,8 +1,73 @@
 """C15 -- the engine answers every request with a well-formed response and never panics (claimed partial)."""
+import os, json, re
+import coqgen as g
+import check as ck
 from props import C14
+
+OBL = g.HEADER + """From Crem Require Import Engine EngineCensus.
+From CremGen Require Import Facts15.
+Open Scope string_scope.
+(* functions of the CURRENT source with panic sites the model does not account for *)
+Definition U := Eval vm_compute in census_unexplained accounted_sites sites declared.
+Print U.
+(* accounted functions whose census went DOWN (the model over-approximates): reported only *)
+Definition Dn := Eval vm_compute in census_decreases accounted_sites sites.
+Print Dn.
+Theorem census_ok : census_matches accounted_sites sites declared = true.
+Proof. vm_compute. reflexivity. Qed.
+"""
+
+
+def census(ctx):
+    """Panic-site census: harness/astfacts15 (go/ast, stdlib only) -> gen/Facts15.v from the CURRENT source;
+    obligation gen/obl_C15.v: census_matches Engine.accounted_sites Facts15.sites Facts15.declared = true."""
+    tdir = os.path.join(ck.VERIF, "harness", "astfacts15")
+    exe = os.path.join(ck.BUILD, "astfacts15." + ctx.pid)
+    p = ck.sh(["go", "build", "-o", exe, "."], cwd=tdir, env=ck.GOENV, timeout=600)
+    if p.returncode != 0:
+        raise ck.Abort("astfacts15 does not build:\n" + p.stdout[-2000:] + p.stderr[-4000:])
+    out = os.path.join(ck.GEN, "Facts15.v")
+    p = ck.sh([exe, ck.REPO, out], env=ck.GOENV, timeout=300)
+    if p.returncode != 0:
+        raise ck.Abort("astfacts15: source does not parse (hard error, not a verdict):\n" + p.stderr[-4000:])
+    facts = json.loads(p.stdout.strip().splitlines()[-1])
+    ok, so, se = ctx.coq_cases("Facts15", open(out).read())
+    if not ok:
+        raise ck.Abort("generated gen/Facts15.v does not compile:\n" + (se or so)[-3000:])
+    ok, so, se = ctx.coq_cases("obl_C15", OBL)
+
+    def names(var):
+        m = re.search(var + r"\s*=\s*(\[.*?\])\s*:\s*list string", so, flags=re.S)
+        return re.findall(r'"([^"]+)"', m.group(1)) if m else None
+
+    unexplained, decreases = names("U"), names("Dn")
+    if unexplained is None:
+        raise ck.Abort("gen/obl_C15.v: cannot read the census comparison:\n" + (se or so)[-3000:])
+    where = [s for s in facts["sites"] if s["func"] in unexplained]
+    ctx.oblige("facts15:census_ok", ok and not unexplained,
+               "" if ok and not unexplained else "panic sites the model does not account for: " +
+               "; ".join("%s:%d %s in %s: %s" % (s["file"], s["line"], s["kind"], s["func"], s["text"]) for s in where)[:1500])
+    if not ok or unexplained:
+        ctx.broken.append("gen/obl_C15.v census_ok (Engine.accounted_sites does not cover the panic sites of the current source: %s)"
+                          % json.dumps([{k: s[k] for k in ("file", "line", "func", "kind", "text")} for s in where])[:2500])
+    if decreases:
+        ctx.notes.append({"census_decrease": "accounted functions with FEWER panic sites in the current source than the model "
+                          "accounts for (the model over-approximates; no alarm)", "functions": decreases})
+    ctx.coverage["panic_site_census"] = {
+        "scanned_files": facts["files"], "sites": len(facts["sites"]),
+        "by_kind": {k: sum(1 for s in facts["sites"] if s["kind"] == k) for k in ("assert", "panic", "pcall")},
+        "site_list": ["%s:%d %s %s" % (s["file"].split("/")[-1], s["line"], s["kind"], s["func"]) for s in facts["sites"]],
+        "known_panicking_callees": sorted(facts["panicking_callees"]),
+        "index_and_slice_expressions_reported_only": {"total": facts["indexed_total"], "per_function": facts["indexed"]},
+        "rule": "alarm iff some function has more sites of a kind than Engine.accounted_sites lists for it (a function without "
+                "accounting may inherit that of a no-longer-declared function with the identical profile = rename); fewer "
+                "sites are a note"}
+    ctx.extra_trusted.append("harness/astfacts15 (go/ast census of single-result type assertions, panic( calls and calls of the listed "
+                             "known-panicking callees in cmd/cremengine/engine/api and internal/pkg/server/rest; a file that does not parse is a hard error)")
 
 
 def run(ctx):
+    census(ctx)
     C14.common("C15", ctx, "C15")
     ctx.coverage["rule"] = (
         "request sequences through the real Mux.ServeHTTP under recover (fresh Mux each): the catalogue of every request shape "
